@@ -12,6 +12,7 @@ import (
 	"verifharness/conv"
 	"verifharness/gen"
 	"verifharness/obs"
+	"verifharness/ref"
 )
 
 // C19 — PacketSkipper equals deleting packets; PacketsParser sees each unit exactly once.
@@ -228,7 +229,7 @@ func TestC19Skipper(t *testing.T) {
 }
 
 func TestC19Parser(t *testing.T) {
-	rec := obs.NewRecorder("C19", "parser", "rapid: well-formed streams x PacketsParser kinds {observer (skip=false), replacer (skip=true with own data for chosen units), failing on chosen units}; oracle: observer leaves the NextData output identical to the run without parser; every group handed over is non-empty and single-PID, and per PID the concatenation of the groups is exactly that PID's payload-carrying packets in arrival order, each once (end-of-stream drain included); replacer: the output is exactly the returned data in order for replaced units and the default data for the others; failing parser: every unit is still handed over exactly once; non-trivial = >= 2 PIDs and a unit over >= 2 packets; distinct by stream bytes + parser kind")
+	rec := obs.NewRecorder("C19", "parser", "rapid: well-formed streams x PacketsParser kinds {observer (skip=false; half of them also return data of their own for chosen units, which must not show), replacer (skip=true with own data for chosen units), failing on chosen units}; oracle: observer leaves the NextData output identical to the run without parser; every group handed over is non-empty and single-PID, and per PID the concatenation of the groups is exactly that PID's payload-carrying packets in arrival order, each once (end-of-stream drain included); replacer: the output is exactly the returned data in order for replaced units and the default data for the others; failing parser: every unit is still handed over exactly once; non-trivial = >= 2 PIDs and a unit over >= 2 packets; distinct by stream bytes + parser kind")
 	defer rec.Flush()
 	rapid.Check(t, func(t *rapid.T) {
 		o := defaultStreamOpts()
@@ -251,6 +252,8 @@ func TestC19Parser(t *testing.T) {
 			}
 		}
 		kind := gen.Uniform(t, 3, "parserkind")
+		noisy := gen.Bool(t, "noisyobserver")
+		junk := map[*astits.DemuxerData]int{}
 		sel := rapid.SliceOfN(rapid.Bool(), 64, 64).Draw(t, "select")
 		seenPerPID := map[uint16][]string{}
 		ngroups := 0
@@ -270,6 +273,17 @@ func TestC19Parser(t *testing.T) {
 				seenPerPID[p.Header.PID] = append(seenPerPID[p.Header.PID], obs.Canon(p, "IsOneByteStuffing"))
 			}
 			switch kind {
+			case 0:
+				// a talkative observer: it returns data of its own together with skip=false; the default output must not change
+				if noisy && sel[g%64] {
+					var ds []*astits.DemuxerData
+					for i := 0; i <= g%2; i++ {
+						x := &astits.DemuxerData{PID: ps[0].Header.PID ^ 0x1555, FirstPacket: &astits.Packet{Header: astits.PacketHeader{ContinuityCounter: uint8(g % 16), PID: uint16(0x1a00 + i)}}}
+						junk[x] = g
+						ds = append(ds, x)
+					}
+					return ds, false, nil
+				}
 			case 1:
 				// the PAT is never replaced: the demuxer learns the PMT PIDs from the PAT data that passes through it
 				if sel[g%64] && ps[0].Header.PID != 0 {
@@ -311,6 +325,26 @@ func TestC19Parser(t *testing.T) {
 		}
 		switch kind {
 		case 0:
+			if noisy && len(res.errs) == 0 && !equalStrings(got, baseCanon) {
+				// recorded finding K2: on a unit for which the default process yields nothing (CAT, payload that is neither
+				// PSI nor PES) the data returned with skip=false is delivered. Anything else is a violation.
+				counts := groupDefaultCounts(stream)
+				var rest []string
+				onlyEmpty := len(counts) == ngroups
+				for _, it := range res.items {
+					if g, ok := junk[it]; ok {
+						if !onlyEmpty || counts[g].n != 0 {
+							onlyEmpty = false
+						}
+						continue
+					}
+					rest = append(rest, obs.Canon(it))
+				}
+				if onlyEmpty && equalStrings(rest, baseCanon) && rec.Known(c19K2, c19K2Text) {
+					rec.Class("observer_returning_data_with_skip_false")
+					break
+				}
+			}
 			if len(res.errs) > 0 || !equalStrings(got, baseCanon) {
 				t.Fatalf("an observing parser (skip=false) changed the output: %d items, %d without parser, errors %s%s\nstream: %s", len(got), len(baseCanon), errStrings(res.errs), firstDiff(got, baseCanon), m.describe())
 			}
@@ -345,6 +379,9 @@ func TestC19Parser(t *testing.T) {
 			}
 		}
 		rec.Class([]string{"observer", "replacer", "failing"}[kind])
+		if kind == 0 && noisy {
+			rec.Class("observer_returning_data_with_skip_false")
+		}
 		multi := false
 		for _, u := range m.units {
 			if len(u.packets) >= 2 {
@@ -412,4 +449,65 @@ func groupDefaultCounts(stream []byte) []groupCount {
 		_, _ = pendingFrom, pending
 	}
 	return groups
+}
+
+const (
+	c19K2     = "K2-parser-data-with-skip-false-delivered-when-default-yields-nothing"
+	c19K2Text = "data returned by a PacketsParser together with skip=false is delivered when the default process yields nothing for the unit (CAT PID, payload that is neither PSI nor PES)"
+)
+
+// TestC19KnownK2 probes the recorded finding K2 with a fixed input: a parser that returns data of its own with
+// skip=false for every unit of a stream holding a PES unit, a CAT packet and a private (non-PES) unit.
+func TestC19KnownK2(t *testing.T) {
+	rec := obs.NewRecorder("C19", "known_finding_probe", "fixed input probing finding K2: a PacketsParser returns one item of its own and skip=false for every unit of a stream made of a PAT, a PES unit, a CAT packet and a unit that is neither PSI nor PES; the property demands the default output, unchanged")
+	defer rec.Flush()
+	pts := uint64(900)
+	var ccPAT, ccA, ccB, ccC uint8
+	var pk []*ref.TSPacket
+	pat := (&ref.Section{TableID: 0, CurrentNext: true, PAT: &astits.PATData{TransportStreamID: 1, Programs: []*astits.PATProgram{{ProgramNumber: 1, ProgramMapID: 0x1000}}}}).Encode()
+	pk = append(pk, ref.PacketizeUnit(0, ref.PSIUnit(0, 0, pat), &ccPAT, ref.PktOpts{PadFF: true})...)
+	pk = append(pk, ref.PacketizeUnit(0x100, (&ref.PES{StreamID: 0xe0, Length: -1, Opt: &ref.PESOpt{PTS: &pts}, Payload: []byte{1, 2, 3, 4}}).Encode(), &ccA, ref.PktOpts{})...)
+	pk = append(pk, ref.PacketizeUnit(1, []byte{0x00, 0x01, 0xb0, 0x09, 0xff, 0xff, 0xc1, 0x00, 0x00, 0x11, 0x22, 0x33, 0x44}, &ccC, ref.PktOpts{PadFF: true})...)
+	pk = append(pk, ref.PacketizeUnit(0x200, []byte{0x10, 0x20, 0x30, 0x40, 0x50}, &ccB, ref.PktOpts{})...)
+	pk = append(pk, ref.PacketizeUnit(0x100, (&ref.PES{StreamID: 0xe0, Length: -1, Opt: &ref.PESOpt{PTS: &pts}, Payload: []byte{5, 6}}).Encode(), &ccA, ref.PktOpts{})...)
+	stream := ref.EncodeAll(pk)
+	base := demuxAll(stream)
+	junk := map[*astits.DemuxerData]uint16{}
+	parser := func(ps []*astits.Packet) ([]*astits.DemuxerData, bool, error) {
+		x := &astits.DemuxerData{PID: 0x1abc, FirstPacket: &astits.Packet{Header: astits.PacketHeader{PID: 0x1abc}}}
+		junk[x] = ps[0].Header.PID
+		return []*astits.DemuxerData{x}, false, nil
+	}
+	res := demuxAll(stream, astits.DemuxerOptPacketsParser(parser))
+	rec.Evals(1)
+	rec.Distinct(1)
+	rec.Sample(map[string]interface{}{"stream_packets": len(pk), "default_items": len(base.items), "items_with_talkative_parser": len(res.items)})
+	if len(base.errs) > 0 || len(res.errs) > 0 {
+		t.Fatalf("errors: %s / %s", errStrings(base.errs), errStrings(res.errs))
+	}
+	var rest []string
+	leaked := map[uint16]bool{}
+	for _, it := range res.items {
+		if pid, ok := junk[it]; ok {
+			leaked[pid] = true
+			continue
+		}
+		rest = append(rest, obs.Canon(it))
+	}
+	var want []string
+	for _, it := range base.items {
+		want = append(want, obs.Canon(it))
+	}
+	if !equalStrings(rest, want) {
+		t.Fatalf("a parser returning skip=false changed the default items: %d, want %d%s", len(rest), len(want), firstDiff(rest, want))
+	}
+	if len(leaked) == 0 {
+		return
+	}
+	if leaked[0] || leaked[0x100] {
+		t.Fatalf("data returned with skip=false was delivered for a unit that has default output (PIDs %v)", leaked)
+	}
+	if !rec.Known(c19K2, c19K2Text) {
+		t.Fatalf("data returned by the parser with skip=false was delivered (units of PIDs %v)", leaked)
+	}
 }
